@@ -104,9 +104,9 @@ func c19PubSub(r *R) {
 		client    int
 	}
 	var hist []hop
-	recvBy := map[int]map[int]int{}   // publish id -> subscriber -> deliveries
-	recvSeq := map[[2]int][]int{}     // (pub, sub) -> sequence numbers in arrival order, per type ignored
-	recvStep := map[[2]int]int{}      // (id, sub) -> step of delivery
+	recvBy := map[int]map[int]int{} // publish id -> subscriber -> deliveries
+	recvSeq := map[[2]int][]int{}   // (pub, sub) -> sequence numbers in arrival order, per type ignored
+	recvStep := map[[2]int]int{}    // (id, sub) -> step of delivery
 	addOp := func(client int, op c19Op, call, ret int) {
 		mu.Lock()
 		hist = append(hist, hop{op, call, ret, client})
@@ -135,7 +135,9 @@ func c19PubSub(r *R) {
 			mu.Unlock()
 		}
 	}
-	decide := func(n int, ctx vivid.SupervisionContext) vivid.SupervisionDecision { return vivid.SupervisionDecisionRestart }
+	decide := func(n int, ctx vivid.SupervisionContext) vivid.SupervisionDecision {
+		return vivid.SupervisionDecisionRestart
+	}
 	holder := &Spec{Name: "subs", Strategy: vivid.OneForOneStrategy(w.NewMaker("subs", decide))}
 	for i := 0; i < nSubs; i++ {
 		holder.Children = append(holder.Children, &Spec{Name: fmt.Sprintf("s%d", i), OnOther: onOther(i)})
